@@ -77,6 +77,9 @@ def confirm(d, with_pytest=True):
     ok = res.get("demo_without_patch_rc") == 0 and res.get("demo_with_patch_rc") not in (0, None)
     print(json.dumps(res, indent=1))
     print("CONFIRMED" if ok else "NOT CONFIRMED", name, "(check the pytest tail: the stable baseline must still pass)")
+    if ok:
+        meta["demo_confirmed"] = True
+        json.dump(meta, open(os.path.join(d, "meta.json"), "w"), indent=1)
     return ok
 
 
@@ -130,6 +133,14 @@ def check(d, pids=None, tier="quick"):
         shutil.rmtree(os.path.join(VERIF, ".work", "mut_" + name), ignore_errors=True)
     for r in rows:
         print(json.dumps(r))
+    try:
+        rp = os.path.join(d, "check_result.json")
+        old = json.load(open(rp)) if os.path.exists(rp) else {}
+        for r in rows:
+            old[r["check"]] = dict(rc=r["rc"], violations=r["violations"], first=r["first"].strip(), wall=r["wall"], tier=tier)
+        json.dump(old, open(rp, "w"), indent=1)
+    except Exception as ex:
+        print("could not store result:", ex)
     return rows
 
 
@@ -159,5 +170,25 @@ def main():
             print("%s | %s | %s | %s" % (r["seeded"], r["check"], r["rc"], "yes" if r["rc"] == 1 else "NO"))
 
 
+def table():
+    base = os.path.join(VERIF, "seeded")
+    print("| seeded change | property | what it needs to manifest | demo confirmed | stable baseline | detected by (exit 1) |")
+    print("|---|---|---|---|---|---|")
+    for name in sorted(os.listdir(base)):
+        d = os.path.join(base, name)
+        if not os.path.exists(os.path.join(d, "meta.json")):
+            continue
+        m = load(d)
+        cr = json.load(open(os.path.join(d, "check_result.json"))) if os.path.exists(os.path.join(d, "check_result.json")) else {}
+        br = json.load(open(os.path.join(d, "baseline_result.json"))) if os.path.exists(os.path.join(d, "baseline_result.json")) else None
+        det = ", ".join("%s%s" % (k, "" if v["rc"] == 1 else " (MISSED rc=%s)" % v["rc"]) for k, v in sorted(cr.items())) or "not run"
+        first = "; ".join(v["first"][:90] for k, v in sorted(cr.items()) if v["rc"] == 1)[:140]
+        print("| %s: %s | %s | %s | %s | %s | %s %s |" % (name, m.get("title", "")[:160].replace("|", "/"), m["property"], m.get("needs", "")[:200].replace("|", "/").replace("\n", " "),
+              "yes" if m.get("demo_confirmed") else "?", ("%d/%d" % (br["stable_passed"], br["stable"])) if br else "?", det, ("— " + first.replace("|", "/")) if first else ""))
+
+
 if __name__ == "__main__":
+    if len(sys.argv) > 1 and sys.argv[1] == "table":
+        table()
+        sys.exit(0)
     main()
